@@ -292,6 +292,10 @@ fn run_c08(ctx: &Ctx) -> Run {
         }
         let n = ctx.n(200_000, 6_000_000) / threads as u64;
         for _ in 0..n {
+            // error paths must leave nothing behind: now and then a few rejected calls precede the judged ones
+            if rng.below(64) == 0 {
+                crate::orc::failed_call_history(&mut rng);
+            }
             let flavour = *rng.pick(&["antichain", "complete", "multiroot", "lowres", "lowres", "overlap", "overlap", "ancestors", "lookalike", "lookalike", "spine"]);
             if rng.chance(0.1) {
                 // history: a call that fails half way (a complete sibling group on a face that does not exist, after some valid
@@ -330,6 +334,10 @@ fn run_c10(ctx: &Ctx) -> Run {
         }
         let n = ctx.n(200_000, 6_000_000) / threads as u64;
         for _ in 0..n {
+            // error paths must leave nothing behind: now and then a few rejected calls precede the judged ones
+            if rng.below(64) == 0 {
+                crate::orc::failed_call_history(&mut rng);
+            }
             let flavour = *rng.pick(&["antichain", "complete", "multiroot", "lowres", "lowres", "lookalike", "spine"]);
             if rng.chance(0.1) {
                 // history: a call that fails half way must leave nothing behind for the next call on this thread
